@@ -19,7 +19,8 @@ CLAIMS = {
         text="Bounded symbolic model checking of the real combo_runner/combo_runner_core/_unflatten/_submit code: "
              "for every grid shape within the bounds, symbolic grid values and payloads, every shuffle permutation "
              "(N<=5 quick, N=6 thorough) and every completion order of the three executor flavours, each combination "
-             "is called exactly once and its result sits in its own slot.  'Confirmed over all paths' per condition; "
+             "is called exactly once and its result sits in its own slot; also 33 / 40 / 65 tasks through each "
+             "executor flavour (size thresholds).  'Confirmed over all paths' per condition; "
              "counterexamples are replayed on the real random module before being reported."),
     "C02": dict(
         engine="A", category="model_checking", design_ref="DESIGN.md 5/C02",
@@ -30,8 +31,9 @@ CLAIMS = {
              "dict/tuple spelling, nested/flat, combo_runner and case_runner entry points, sub-grids on a further "
              "argument, every shuffle permutation of <=4 cases: the function is called exactly once per requested "
              "setting and never otherwise, the grid spans the sorted per-argument union, requested slots hold their "
-             "payload, all others the correctly shaped placeholder; an argument in both cases and combos is rejected "
-             "before any call."),
+             "payload, all others the correctly shaped placeholder (for dict-valued results: a Dataset with every "
+             "variable null); argument values of mixed int/float type and tuple-valued argument values; an argument "
+             "in both cases and combos is rejected before any call."),
     "C03": dict(
         engine="A", category="model_checking", design_ref="DESIGN.md 5/C03",
         technique="CrossHair symbolic execution of the real combo_runner_to_ds / case_runner_to_ds / results_to_ds / "
@@ -40,8 +42,9 @@ CLAIMS = {
         text="Bounded symbolic model checking of the labelling logic: for grids up to 3x2 and case sets up to 4 "
              "points, 1-2 output variables with optional internal dimension, five spellings of the output "
              "description, constants that are / are not dimensions, resources, attrs, three entry points, and every "
-             "shuffle permutation (Dataset N<=4, DataFrame N<=5): dims, coords, every labelled cell, attrs and every "
-             "DataFrame row are as the property states."),
+             "shuffle permutation (Dataset N<=4, DataFrame N<=5), outputs returned as tuple or list, case values of "
+             "mixed int/float type: dims, coords, every labelled cell, attrs and every DataFrame row are as the "
+             "property states."),
     "C05": dict(
         engine="A", category="model_checking", design_ref="DESIGN.md 5/C05",
         technique="CrossHair symbolic execution of the real Harvester / save_ds / load_ds / save_merge_ds code over "
@@ -60,7 +63,9 @@ CLAIMS = {
         text="Runner crops (grids <=2x2, case subsets, 1-2 variables, internal dimension, constant as dimension, "
              "resource, attr, all batchings, sow-time shuffle permutations, reload by name), Harvester crops (earlier "
              "equal/conflicting data x three policies) and Sampler crops (same drawn indices) deliver what the direct "
-             "run delivers: same Dataset / table in memory, on disk and as last result."),
+             "run delivers: same Dataset / table in memory, on disk and as last result; also after a re-sow of a grown "
+             "crop with other values, with a per-call combos override of the sampling space, and with another "
+             "process merging into the harvester's file between sow and reap."),
     "C10": dict(
         engine="A", category="fault_enumeration", design_ref="DESIGN.md 5/C10",
         technique="CrossHair over a step-level file-system model (StepFS): the kill instant is a solver variable "
@@ -70,7 +75,8 @@ CLAIMS = {
         text="Solver-enumerated crash points: for every kill instant of every phase on 2-batch crops (K=2 chunks per "
              "file; thorough: second kill during recovery, both rmtree orders): a fresh process's reap refuses or is "
              "exact, the documented recovery reaches the direct-run result, data already in a harvester file or "
-             "sampler table survives; writes buffered until close, recovery under another pid.  One known finding (sampler duplicate-on-retry window) is listed and probed."),
+             "sampler table survives; writes buffered until close, recovery under another pid, a harvester that "
+             "sowed with data in memory while another process merged into its file.  One known finding (sampler duplicate-on-retry window) is listed and probed."),
     "C11": dict(
         engine="A", category="model_checking", design_ref="DESIGN.md 5/C11",
         technique="CrossHair over StepFS timelines: each file's visible state is a solver-chosen monotone position "
@@ -81,7 +87,8 @@ CLAIMS = {
              "placement of the reader's observations relative to the writers' steps the reaper returns exactly the "
              "direct-run result and progress queries never count a partly written result.  Writes are either "
              "visible at once or buffered until a solver-chosen later step (at the latest close); the same batch "
-             "grown by two growers at once and grown again after it finished are explored as well."),
+             "grown by two growers at once and grown again after it finished are explored as well, and "
+             "reap(wait=True, allow_incomplete=True) with one batch finished and one being grown."),
     "C13": dict(
         engine="A", category="model_checking", design_ref="DESIGN.md 5/C13",
         technique="CrossHair symbolic execution of the real is_case_missing / find_missing_cases / parse_into_cases "
@@ -89,7 +96,8 @@ CLAIMS = {
                   "per location)",
         text="Datasets with <= 6 locations, 1-2 variables, optional internal dimension (ignored or not), every "
              "finite/NaN/inf pattern, both null criteria, requested combos/cases incl. absent labels, and the "
-             "find -> harvest -> find loop: exactly the all-null locations are reported, in grid order."),
+             "find -> harvest -> find loop, dimensions named like options of Dataset.sel ('tolerance', 'drop', "
+             "'method'): exactly the all-null locations are reported, in grid order."),
     "C14": dict(
         engine="A", category="other", design_ref="DESIGN.md 5/C14",
         technique="CrossHair symbolic execution of the real auto_add_extension / save_ds / load_ds / save_merge_ds / "
@@ -97,7 +105,8 @@ CLAIMS = {
         text="PARTIAL claim: (i) one file name used by saving, loading, merging and the Harvester's load/save/delete "
              "for every name of length <=5 (7 thorough) and engine; (ii) the extension rule; (iii) attribute "
              "rewriting exactly for None/True/False and netCDF engines; (iv) invalid_netcdf for complex data; (v) "
-             "chunks / load_to_mem handling.  NOT decided: that h5netcdf / joblib read back the same dims, coords, "
+             "chunks / load_to_mem handling; (vi) on the dataset model: save -> load gives the same dims / values / "
+             "attributes and the loaded dataset does not change when the file is re-written.  NOT decided: that h5netcdf / joblib read back the same dims, coords, "
              "values, NaNs, complex numbers (C libraries behind a file).",
         note="Trusted base: CrossHair + z3 string theory; back ends are recording stubs."),
     "C15": dict(
@@ -107,7 +116,7 @@ CLAIMS = {
         text="Two-run histories (n<=2) with combos override, direct or through a crop, fresh Sampler objects, "
              "pickle|csv, shuffle: exactly n rows appended, earlier rows unchanged, rows pair drawn arguments with the "
              "function's value, disk = memory, a new sampler continues; two live Sampler objects on one file, a "
-             "crop reused for a second run, generator-valued combos."),
+             "crop reused for a second run, generator-valued combos, a batch grown with worker processes."),
     "C16": dict(
         engine="A", category="other", design_ref="DESIGN.md 5/C16",
         technique="CrossHair symbolic execution of the real gen_cluster_script + the generated Python program "
@@ -115,7 +124,9 @@ CLAIMS = {
         text="PARTIAL claim (Python side): for SGE/PBS/SLURM x array/single x every finished subset and every "
              "requested id subset of crops with B<=3 (4) batches x every task index of the header range, the embedded "
              "program is valid Python and grows exactly the intended batch (order-preserving bijection), after which "
-             "the crop is ready with exact results; the CLI grows exactly the missing batches.  NOT decided: bash "
+             "the crop is ready with exact results (batches of two settings grown with num_workers when the script "
+             "asks for workers; crops given by a relative parent directory with the job started elsewhere and the "
+             "script's cd honoured); the CLI grows exactly the missing batches.  NOT decided: bash "
              "itself.",
         note="Trusted base: CrossHair; the shell is modelled as substitution of the task variable in an unquoted "
              "here-document."),
@@ -127,7 +138,8 @@ CLAIMS = {
         text="Bounded symbolic model checking of the real sow/grow/reap pipeline against the direct run, one "
              "dimension at a time (batching for N<=6 quick / N<=10 thorough, every shuffle permutation of N<=4, every "
              "order and grouping of B<=3 (4) batches, fresh Crop objects between steps, the real pickling library "
-             "lookup).  Counterexamples are replayed on a real temp directory with the real random module."),
+             "lookup, the same crop name reused for a second function in one process).  Counterexamples are replayed "
+             "on a real temp directory with the real random module."),
     "C07": dict(
         engine="A", category="model_checking", design_ref="DESIGN.md 5/C07",
         engine_override="AB",
@@ -138,7 +150,7 @@ CLAIMS = {
         text="For every (N<=6 quick / <=10 thorough, batchsize|num_batches|neither), grids, case lists and cases x "
              "sub-grid, with and without farmer constants/resources and under every shuffle permutation of N<=4: the "
              "batch files partition the direct run's settings exactly, sizes honour the request, and the crop reports "
-             "the same numbers after a reload."),
+             "the same numbers after a reload; also one case given as a bare dict crossed with a sub-grid."),
     "C08": dict(
         engine="A", category="model_checking", design_ref="DESIGN.md 5/C08",
         technique="CrossHair, inductive step: arbitrary valid crop state (solver-chosen finished subset) + one "
@@ -147,7 +159,8 @@ CLAIMS = {
              "and any finished subset, each of ten operations (re-sow, grow, grow subset, grow_missing, failing grow, "
              "delete, two kinds of corruption + check_bad, reload, healthy check_bad) leaves num_results, "
              "num_sown_batches, missing_results, is_ready_to_reap, str(crop) and the result files equal to the ghost "
-             "state; plus all histories of length 2 (3) from the empty state."),
+             "state; plus all histories of length 2 (3) from the empty state, and a grow that fails inside "
+             "pickle.dump on the real write_to_disk (step-level file system)."),
     "C09": dict(
         engine="A", category="model_checking", design_ref="DESIGN.md 5/C09",
         technique="CrossHair symbolic execution of the real allow_incomplete reap for every solver-chosen subset of "
@@ -167,17 +180,22 @@ CLAIMS = {
     "C19": dict(
         engine="A", engine_override="AB", category="other", design_ref="DESIGN.md 5/C19",
         technique="source-to-SMT (pyz3) of the Welford updates over z3 Reals: closed-form identities unsat-checked "
-                  "per K; converged() inequality with sqrt as fresh root; CrossHair on the real estimate_from_repeats "
-                  "loop with converged as a solver-chosen oracle",
+                  "per K (also with the statistics / matrices read between chunks); the same source interpreted over "
+                  "z3 Float64 terms (QF_FP + bit-vectors) for an accuracy bound on lattice inputs; converged() "
+                  "inequality with sqrt as fresh root; CrossHair on the real estimate_from_repeats loop with "
+                  "converged as a solver-chosen oracle",
         text="PARTIAL claim. Decided: (i) over the reals, after K samples (every K<=40 and K=100 quick; K<=120, 250, "
              "500 thorough) count, mean, M2/var, covariance C and every covariance-matrix entry equal the whole-sample "
              "closed forms, which are symmetric, hence independent of chunking and order; (ii) converged(rtol, atol) "
              "<=> err < rtol*|mean| + atol; (iii) the real estimate_from_repeats loop never exceeds max_samples, "
              "reports exactly the samples drawn, and stops early only at a count where convergence was reported.  "
-             "NOT decided: floating-point accuracy on ill-conditioned data (QF_FP queries are out of reach); a "
-             "regression to an algebraically identical but unstable formula is not detected.",
-        note="Trusted base: pyz3 translator (validated against the real classes on concrete vectors on every run), "
-             "z3 nonlinear real arithmetic, CrossHair; reals stand in for binary64."),
+             "(iv) in binary64, round-to-nearest-even, for every K=2 (thorough: K=3) sequence of lattice inputs "
+             "c + 2^-10*t (offset c = 1e9 or 1, t a 5-6 bit integer): |M2 - exact| <= 8*u*K*xmax*(R + u*xmax), "
+             "|mean - exact| <= 8*u*xmax, likewise var and the covariance accumulator - a bound Welford meets and a "
+             "sum-of-squares formula misses by a factor xmax/R.  NOT decided: floating-point accuracy for longer "
+             "sequences, off-lattice inputs, or the matrix class.",
+        note="Trusted base: pyz3 translator (validated against the real classes on concrete vectors on every run, "
+             "bit-exactly in IEEE mode), z3 nonlinear real arithmetic and floating-point theory, CrossHair."),
     "C20": dict(
         engine="B", category="model_checking", design_ref="DESIGN.md 5/C20",
         technique="source-to-SMT (pyz3): format_number_with_error translated from the AST to z3 Real/Int terms, one "
